@@ -302,11 +302,12 @@ def violation(run, payload, nofail=False):
 # Axioms the standard library itself declares and that the floating-point level theorems (Properties/*f.v) rest on:
 # the classical real numbers, and the specification of the kernel's primitive binary64 floats.  Fully qualified as
 # coqchk prints them; Print Assumptions prints a suffix of these names.  A prefix ending in "." allows a whole
-# standard-library module of axioms (FloatAxioms / Uint63: the *_spec statements of the primitive operations).
+# standard-library module of axioms (FloatAxioms / Uint63: the *_spec statements of the primitive operations); the names
+# each theorem actually uses are recorded in the evidence file and listed in DESIGN.md section 3.
 STD_FLOAT_AXIOMS = ("Coq.Reals.ClassicalDedekindReals.sig_not_dec", "Coq.Reals.ClassicalDedekindReals.sig_forall_dec",
                     "Coq.Logic.FunctionalExtensionality.functional_extensionality_dep", "Coq.Logic.Classical_Prop.classic",
-                    "Coq.Floats.FloatAxioms.")
-PRIM_PRINTED = re.compile(r"^(PrimInt63\.|PrimFloat\.|Uint63\.|Sint63\.)|^(of_uint63|of_int63|normfr_mantissa|ldshiftexp|frshiftexp|float|int)$")
+                    "Coq.Floats.FloatAxioms.", "Coq.Numbers.Cyclic.Int63.Uint63.")
+PRIM_PRINTED = re.compile(r"^(PrimInt63\.|PrimFloat\.)|^(of_uint63|of_int63|normfr_mantissa|ldshiftexp|frshiftexp|float|int)$")
 
 
 def axiom_allowed(name, allowed):
@@ -331,8 +332,9 @@ def load_float_axiom_names():
     if FLOAT_AXIOM_NAMES:
         return
     try:
-        src = open("/usr/lib/ocaml/coq/theories/Floats/FloatAxioms.v", encoding="utf-8").read()
-        FLOAT_AXIOM_NAMES.update(re.findall(r"^\s*Axiom\s+([A-Za-z_][\w']*)", src, re.M))
+        for f in ("Floats/FloatAxioms.v", "Numbers/Cyclic/Int63/Uint63.v"):
+            src = open("/usr/lib/ocaml/coq/theories/" + f, encoding="utf-8").read()
+            FLOAT_AXIOM_NAMES.update(re.findall(r"^\s*Axiom\s+([A-Za-z_][\w']*)", src, re.M))
     except OSError:
         pass
 
